@@ -526,6 +526,25 @@ def ieval(ft, t, env, assume=None, _nested=False):
             lo, hi = (ieval(ft, y, env, assume, _nested) for y in rng[2])
             return int(lo <= xv <= hi)
         raise Undetermined("contains")
+    if tag == "call" and isinstance(t[1], str) and (t[1].endswith("::eq") or t[1].endswith("::ne")) and len(t[2]) == 2:
+        # equality of two values the compiler / the environment knows completely (tables, enum rows)
+        a, b = _cval(ft, t[2][0], env, assume, _nested), _cval(ft, t[2][1], env, assume, _nested)
+        if a is None or b is None:
+            raise Undetermined("eq on unknown values")
+        return int((_tup(a) == _tup(b)) == t[1].endswith("::eq"))
+    if tag == "call" and isinstance(t[1], str) and len(t[2]) >= 1 and t[1].split("::")[-1] in ("expect", "unwrap") and t[2][0][0] == "call" \
+            and isinstance(t[2][0][1], str) and t[2][0][1].endswith("::try_from") and "TryFrom<" in t[2][0][1]:
+        # integer conversion that must succeed: the value itself when it fits the target type
+        import re as _re
+        v = ieval(ft, t[2][0][2][0], env, assume, _nested)
+        m = _re.search(r" for (i8|i16|i32|i64|i128|isize|u8|u16|u32|u64|u128|usize)>::try_from$", t[2][0][1])
+        if not m or wrap(v, m.group(1)) != v:
+            raise Undetermined("try_from out of range")
+        return v
+    if tag == "call" and isinstance(t[1], str) and len(t[2]) == 1 and t[1].endswith("::from") and "From<" in t[1] and "num::" in t[1]:
+        return ieval(ft, t[2][0], env, assume, _nested)
+    if tag == "call" and isinstance(t[1], str) and len(t[2]) == 1 and t[1].split("::")[-1] in ("deref", "as_slice", "as_ref", "borrow", "clone"):
+        return ieval(ft, t[2][0], env, assume, _nested)      # views of the same value
     if tag == "call" and isinstance(t[1], str):
         name = t[1]
         args = [ieval(ft, a, env, assume, _nested) for a in t[2]] if not name.endswith("unwrap_or") else None
@@ -551,28 +570,83 @@ def ieval(ft, t, env, assume=None, _nested=False):
     raise Undetermined(tag)
 
 
+def _tup(v):
+    return tuple(_tup(x) for x in v) if isinstance(v, (list, tuple)) else v
+
+
+def _cval(ft, t, env, assume=None, _nested=True):
+    """complete Python value of a term: bound in env (ints or lists), a named constant / static table, a promoted
+    constant, an array literal; through borrows, as_slice and unsizing.  None if not known"""
+    from .consts import const_py
+    for _ in range(12):
+        k = strip_site(t)
+        if k in env:
+            return env[k]
+        if t[0] in ("ref", "deref"):
+            t = t[2] if t[0] == "ref" else t[1]
+            continue
+        if t[0] == "cast" and t[1] in ("PointerCoercion", "Unsize", "PtrToPtr"):
+            t = t[2]
+            continue
+        if t[0] == "call" and isinstance(t[1], str) and len(t[2]) == 1 and t[1].split("::")[-1] in ("as_slice", "deref", "as_ref", "borrow", "clone", "to_vec"):
+            t = t[2][0]
+            continue
+        if t[0] == "promoted":
+            r = resolve_promoted(ft.facts, t)
+            if r == t:
+                return None
+            t = r
+            continue
+        break
+    if t[0] == "const":
+        if t[3]:
+            v = const_py(ft.facts, t[3])
+            if v is not None:
+                return v
+        v = const_int(t)
+        return v
+    if t[0] == "static":
+        return const_py(ft.facts, t[1])
+    if t[0] == "agg" and t[1] in ("array", "tuple"):
+        vs = [_cval(ft, x, env, assume, _nested) for x in t[3]]
+        return None if any(v is None for v in vs) else vs
+    if t[0] == "agg" and t[1] == "adt" and not t[3]:
+        return t[2].split("::")[-1]          # field-less enum variant, as const_py spells it
+    try:
+        return ieval(ft, t, env, assume, True)     # never re-enter the condition folding from inside an equality
+    except Undetermined:
+        return None
+
+
 def _resolve_by_eval(ft, phi, env, assume):
     """resolve a phi by evaluating the switch conditions on the way with ieval"""
     extra = dict(assume)
     changed = False
-    for b in sorted(ft.cfg.reach):
-        tm = ft.blocks[b]["term"]
-        if tm["k"] != "switch":
-            continue
-        d = ft.switch_term(b)
-        k = strip_site(d)
-        if k in extra:
-            continue
-        try:
-            if d[0] == "phi" and d == phi:
+    # conditions may depend on values selected by other conditions (and block numbers say nothing about the order
+    # once helper bodies have been spliced in): repeat until nothing new can be folded
+    order = [b for b in ft.cfg.rpo if b in ft.cfg.reach]      # control-flow order, not block numbering
+    for _round in range(1):
+        progress = False
+        for b in order:
+            tm = ft.blocks[b]["term"]
+            if tm["k"] != "switch":
                 continue
-            extra[k] = ieval(ft, d, env, extra, True) if d[0] != "phi" else None
-            if extra[k] is None:
-                del extra[k]
-            else:
-                changed = True
-        except Undetermined:
-            pass
+            d = ft.switch_term(b)
+            k = strip_site(d)
+            if k in extra:
+                continue
+            try:
+                if d[0] == "phi" and d == phi:
+                    continue
+                extra[k] = ieval(ft, d, env, extra, True) if d[0] != "phi" else None
+                if extra[k] is None:
+                    del extra[k]
+                else:
+                    changed = progress = True
+            except Undetermined:
+                pass
+        if not progress:
+            break
     if not changed:
         return None
     return resolve_under(ft, phi, extra)
@@ -654,8 +728,58 @@ def loops_of(ft):
                             if int(v) == 0:
                                 lp.done_succ = bb
         lp.exits = [(b, s) for b in body for s in ft.cfg.succ[b] if s not in body]
+        lp.counter = False
+        if not lp.next:
+            _counter_loop(ft, lp)
         out.append(lp)
     return out
+
+
+def _counter_loop(ft, lp):
+    """`let mut j = a; while j < E { ..; j += 1 }` described like `for j in a..E`: item = the counter as seen in the
+    body, source = the Range a..E.  Only when the header tests `j < E` and every way back to the header adds exactly 1."""
+    head = lp.head
+    tm = ft.blocks[head]["term"]
+    if tm["k"] != "switch":
+        return
+    d = ft.switch_term(head)
+    if not (d[0] == "bin" and d[1] in ("Lt", "Gt")):
+        return
+    j, E = (d[2], d[3]) if d[1] == "Lt" else (d[3], d[2])
+    if not (j[0] == "phi" and j[1] == ft.path and j[2] == head):
+        return
+    ops = ft.phi_operands(j)
+    inits = [v for p, v in ops.items() if p not in lp.body]
+    backs = [v for p, v in ops.items() if p in lp.body]
+    if len(inits) != 1 or not backs:
+        return
+
+    def plus_one(v, depth=0):
+        if depth > 6:
+            return False
+        if v[0] == "field" and str(v[2]) == "0" and v[1][0] == "bin":
+            v = ("bin", v[1][1].replace("WithOverflow", ""), v[1][2], v[1][3])
+        if v[0] == "bin" and v[1] in ("Add", "AddWithOverflow") and strip_site(v[2]) == strip_site(j) and const_int(v[3]) == 1:
+            return True
+        if v[0] == "phi" and v[1] == ft.path and v[2] in lp.body and v != j:
+            return all(plus_one(o, depth + 1) for o in ft.phi_operands(v).values())
+        return False
+    if not all(plus_one(v) for v in backs):
+        return
+    vals, other = None, None
+    true_succ = false_succ = None
+    for v, bb in tm["targets"]:
+        if int(v) == 0:
+            false_succ = bb
+    true_succ = tm["otherwise"] if false_succ is not None else None
+    if true_succ is None or true_succ not in lp.body or false_succ in lp.body:
+        return
+    lp.counter = True
+    lp.item = j
+    lp.source = ("agg", "adt", "std::ops::Range", (inits[0], E), ("start", "end"))
+    lp.item_switch = head
+    lp.some_succ = true_succ
+    lp.done_succ = false_succ
 
 
 def every_iteration(ft, lp, block):
@@ -875,4 +999,27 @@ def closure_item_source(facts, cpath):
     ft, c, i, _agg = sites[0]
     if c.callee and any(c.callee.endswith(s) for s in ADAPTORS_ELEMENTWISE) and i == 1 and len(c.args) == 2:
         return ft, c.args[0]
+    return None
+
+
+
+def option_default(ft, t):
+    """(option term, default term) when t is "the payload of an Option or else a default", spelled either with a
+    combinator (unwrap_or / unwrap_or_else / unwrap_or_default) or as a two-armed match / if-let join.  The default of
+    unwrap_or_else is the closure aggregate; of unwrap_or_default None.  Returns None for anything else."""
+    x = t
+    while x[0] in ("ref", "deref"):
+        x = x[2] if x[0] == "ref" else x[1]
+    if x[0] == "call" and isinstance(x[1], str) and x[2]:
+        short = x[1].split("::")[-1]
+        if short in ("unwrap_or", "unwrap_or_else") and len(x[2]) == 2 and "Option" in x[1]:
+            return x[2][0], x[2][1]
+        if short == "unwrap_or_default" and "Option" in x[1]:
+            return x[2][0], None
+    if x[0] == "phi" and x[1] == ft.path:
+        ops = list(ft.phi_operands(x).values())
+        if len(ops) == 2:
+            for a, b in ((ops[0], ops[1]), (ops[1], ops[0])):
+                if a[0] == "payload" and a[1] == "Some":
+                    return a[2], b
     return None
